@@ -191,6 +191,19 @@ pub fn run(ctx: &Ctx, model: &mut Model, rep: &mut Report) {
                 }
             }
         }
+        // the reader keeps the outline it is given (theorem `reader_outline`): the model's `levelsEv` of the real parser's
+        // events vs the harness' own count, and the statement itself on the real reader's blocks
+        if *corr || i % 2 == 0 {
+            if let Some(c) = crate::events::compare_flat(model, text) {
+                rep.count("reader_outline_cases");
+                if c.levels.0 != c.levels.1 {
+                    rep.disagree(json!({"op": "Outline.levelsEv", "key": key, "text": text, "model": format!("{:?}", c.levels.0), "impl": format!("{:?} (own pass over the parser's events)", c.levels.1)}));
+                }
+                if c.grammar == "complete" && c.levels.2 != c.levels.1 {
+                    rep.fail(json!({"kind": "reader_outline", "key": key, "text": text, "what": format!("the reader's top-level headings have the levels {:?}, the parser reported {:?}", c.levels.2, c.levels.1)}));
+                }
+            }
+        }
         if let Some(what) = check_doc(key, text) {
             rep.fail(json!({"kind": "outline", "key": key, "text": text, "what": what}));
         }
